@@ -54,6 +54,7 @@ K_LIK = 'Edge.get_likelihood:reads-unwritten-cells'
 K_TAUSER = 'Tree.get_tau_matrix:unwritten-cells-serialised'
 K_CLONE = 'get_instance:undecorated-init-loses-options'
 K_STALE = 'GaussianKDE.log_probability_density:stale-model-after-constant-refit'
+K_USER = 'TruncatedGaussian.fit:user-bound-not-honoured-or-not-pure'
 
 OVR = ('cumulative_distribution', 'percent_point', 'probability_density', 'sample')
 XPROBES = np.array([-5.0, 0.0, 2.5, 3.0, 5.0, 7.0, 10.0, 22.0, 25.0, 28.0, 40.0])
@@ -71,6 +72,10 @@ def _imports():
 
 # ------------------------------------------------------------------------------------- datasets
 def make_data(desc):
+    return _make_data(desc) * desc.get('sign', 1.0)
+
+
+def _make_data(desc):
     rs = np.random.RandomState(desc['seed'])
     n, k = desc['n'], desc['kind']
     if k == 'const':
@@ -588,6 +593,102 @@ def refit_oracle(ctx, cls, kw, descs, seed0, report=True):
     return found
 
 
+def user_bound_configs():
+    """TruncatedGaussian WITH explicit user bounds: zero (int, 0.0, -0.0) on either side, one-sided, two-sided,
+    keyword / positional / mixed; `sign` = which side of 0 the data must lie."""
+    cfgs = []
+    for z in (0, 0.0, -0.0):
+        cfgs += [([], {'minimum': z}, 1), ([z], {}, 1), ([], {'minimum': z, 'maximum': 60.0}, 1), ([z, 60.0], {}, 1),
+                 ([], {'maximum': z}, -1), ([None, z], {}, -1), ([], {'minimum': -60.0, 'maximum': z}, -1),
+                 ([-60.0], {'maximum': z}, -1)]
+    cfgs += [([], {'minimum': -100.0}, 1), ([], {'maximum': 200.0}, 1), ([-100.0, 200.0], {}, 1), ([], {'minimum': 0.5, 'maximum': 55}, 1),
+             ([], {'minimum': -100.0}, -1), ([-70, -0.25], {}, -1)]
+    return cfgs
+
+
+def _bounds_of(pos, kw):
+    given = dict(zip(('minimum', 'maximum'), pos), **kw)
+    return given.get('minimum'), given.get('maximum')
+
+
+def oracle_user_bounds(ctx, rng, n_random):
+    """TruncatedGaussian built with user bounds: (a) the fitted model uses exactly the user's bounds and keeps
+    them on the instance, (b) a re-fit equals a fresh fit on every query; a difference that disappears when only
+    the side the user left open is reset belongs to the recorded finding K_BND, anything else is K_USER."""
+    U, _ = _imports()
+    cls = U.TruncatedGaussian
+    found = {}
+    checked = 0
+    for pos, kw, sign in user_bound_configs():
+        s = lambda: rng.randrange(1 << 30)  # noqa: E731
+        P = [{'kind': 'uniform', 'a': 2.0, 'b': 12.0, 'n': rng.randint(25, 60), 'seed': s(), 'sign': sign},
+             {'kind': 'uniform', 'a': 20.0, 'b': 45.0, 'n': rng.randint(25, 60), 'seed': s(), 'sign': sign},
+             {'kind': 'normal', 'a': 30.0, 'b': 3.0, 'n': rng.randint(25, 60), 'seed': s(), 'sign': sign},
+             {'kind': 'gamma', 'a': 2.0, 'b': 2.0, 'n': rng.randint(25, 60), 'seed': s(), 'sign': sign},
+             {'kind': 'const', 'a': 5.0, 'n': 30, 'seed': 0, 'sign': sign}]
+        hists = [[0, 1], [1, 0], [2, 3], [4, 1], [0, 4, 2], [0, 1, 0], [0]] + \
+            [[rng.randrange(len(P)) for _ in range(rng.randint(2, 4))] for _ in range(n_random)]
+        umin, umax = _bounds_of(pos, kw)
+        for h in hists:
+            seed0 = rng.randrange(1 << 20)
+            descs = [P[i] for i in h]
+            inp = {'class': 'TruncatedGaussian', 'args': repr(pos), 'kwargs': repr(kw), 'args_raw': pos, 'kwargs_raw': kw,
+                   'history': descs, 'seed0': seed0}
+            checked += 1
+            ctx.case(('user-bounds', repr(pos), repr(kw), sign, tuple(h), seed0), nontrivial=len(h) >= 2)
+            ctx.count('user-bounds:' + ('two-sided' if umin is not None and umax is not None else 'one-sided'))
+            problems = []
+            try:
+                m1 = cls(*copy.deepcopy(pos), **copy.deepcopy(kw))
+                m3 = None
+                for i, d in enumerate(descs):
+                    if i == len(descs) - 1:
+                        m3 = copy.deepcopy(m1)
+                    X = make_data(d)
+                    fit_pinned(m1, X, seed0 + i)
+                    # (a) honoured
+                    for side, ub, attr, par in (('minimum', umin, 'min', 'a'), ('maximum', umax, 'max', 'b')):
+                        if ub is None:
+                            continue
+                        if not feq(getattr(m1, attr), ub):
+                            problems.append(f'after fit #{i + 1}: self.{attr} = {getattr(m1, attr)!r}, user gave {side}={ub!r}')
+                        if len(np.unique(X)) > 1:
+                            p = m1._params
+                            eff = float(p['loc'] + p[par] * p['scale'])
+                            if not abs(eff - ub) <= 1e-7 * (1 + abs(eff) + abs(float(p['scale']))):
+                                problems.append(f'after fit #{i + 1}: fitted support {side} = loc + {par}*scale = {eff!r}, user gave {ub!r}')
+                m2 = cls(*copy.deepcopy(pos), **copy.deepcopy(kw))
+                fit_pinned(m2, make_data(descs[-1]), seed0 + len(descs) - 1)
+            except Exception as e:  # noqa
+                ctx.count('user-bounds:skipped-fit-raised:' + type(e).__name__)
+                continue
+            o1, o2 = observe(m1), observe(m2)
+            key = None
+            obsd = {}
+            if problems:
+                key, obsd = K_USER, {'bounds_not_honoured': problems[:4]}
+            if not obs_equal(o1, o2):
+                obsd.update({'differs': obs_diff(o1, o2), 'refit': _brief(o1), 'fresh': _brief(o2)})
+                # reset only the side(s) the user left open (the recorded leak) and the recorded override/size leaks
+                open_sides = [a for a, ub in (('min', umin), ('max', umax)) if ub is None]
+                for a in open_sides:
+                    setattr(m3, a, None)
+                try:
+                    fit_pinned(m3, make_data(descs[-1]), seed0 + len(descs) - 1)
+                    explained = bool(open_sides) and obs_equal(observe(m3), o2)
+                except Exception:  # noqa
+                    explained = False
+                key = key or (K_BND if explained else K_USER)
+                if not explained:
+                    key = K_USER
+            if key:
+                found[key] = found.get(key, 0) + 1
+                ctx.fail_input('copulas.univariate.TruncatedGaussian.fit', inp, obsd,
+                               'a TruncatedGaussian built with user bounds uses exactly those bounds, and re-fitted on X is '
+                               'observably identical to a fresh equal model fitted on X', key)
+    return found, checked
+
+
 def _brief(o):
     td = o['to_dict']
     if isinstance(td, dict):
@@ -877,7 +978,43 @@ def invalid_inputs():
         ('ndarray-empty', lambda: np.zeros((0, 2)), False),
         ('ndarray-str', lambda: np.array([['a', 'b'], ['c', 'd']]), False),
         ('ndarray-nan', lambda: np.array([[1.0, nan], [2.0, 3.0], [4.0, 1.0]]), False),
+        # NaN in narrower float dtypes, mixed-dtype frames, object frames holding floats with None
+        ('nan-float32-frame', lambda: _nan_frame(np.float32), True),
+        ('nan-float16-frame', lambda: _nan_frame(np.float16), True),
+        ('nan-float32-col-beside-int16', lambda: _nan_frame(np.float32, ints=np.int16), True),
+        ('nan-float32-col-beside-int64', lambda: _nan_frame(np.float32, ints=np.int64), True),
+        ('nan-float16-col-beside-int8', lambda: _nan_frame(np.float16, ints=np.int8), True),
+        ('object-floats-with-None', lambda: pd.DataFrame({'a': [1.0, None, 3.0, 4.0, 5.0], 'b': [2.0, 1.0, 4.0, 3.0, 6.0]}, dtype=object), True),
+        ('ndarray-nan-float32', lambda: _nan_frame(np.float32).to_numpy(), False),
+        ('ndarray-nan-float16', lambda: _nan_frame(np.float16).to_numpy(), False),
+        ('ndarray-all-nan-float32', lambda: np.full((6, 2), nan, dtype=np.float32), False),
     ]
+
+
+def _nan_frame(ftype, ints=None):
+    rs = np.random.RandomState(77)
+    a = rs.uniform(1, 9, 12).astype(ftype)
+    a[4] = np.nan
+    cols = {'a': a, 'b': rs.uniform(1, 9, 12).astype(ftype)}
+    if ints is not None:
+        cols = {'i': rs.randint(0, 50, 12).astype(ints), 'a': a, 'j': rs.randint(0, 50, 12).astype(ints)}
+    return pd.DataFrame(cols)
+
+
+def inf_inputs():
+    """+-inf is not among the inputs the property requires to be rejected: observed and noted only."""
+    out = []
+    for ft in (np.float64, np.float32, np.float16):
+        def mk(ft=ft):
+            f = _nan_frame(ft)
+            f.iloc[4, 0] = np.inf
+            return f
+        out.append((f'inf-{np.dtype(ft).name}-frame', mk))
+    return out
+
+
+def cls_of(label):
+    return label.split('(')[0]
 
 
 def data_facts(X):
@@ -927,6 +1064,47 @@ def check_invalid(ctx, lean):
                                    {'fitted': bool(m.fitted), 'state_changed': changed},
                                    'a rejected fit leaves the model as it was (unfitted stays unfitted)',
                                    f'{cls}.fit:state-changed-by-rejected-fit')
+                # after the attempt on an unfitted model: queries still say NotFittedError, and a later valid fit
+                # gives exactly what a fresh model gives
+                if not was_fitted:
+                    after = []
+                    if not is_vine:
+                        for q, arg in (('to_dict', ()), ('sample', (2,)), ('probability_density', (good,)),
+                                       ('cumulative_distribution', (good,))):
+                            try:
+                                _quiet(getattr(m, q), *arg)
+                                after.append(f'{q} returned')
+                            except Exception as e:  # noqa
+                                if type(e).__name__ != 'NotFittedError':
+                                    after.append(f'{q} raised {type(e).__name__}')
+                    else:
+                        d = _quiet(m.to_dict)
+                        if d.get('fitted'):
+                            after.append('to_dict says fitted')
+                    later = mv_frame({'n': 35, 'k': 3, 'seed': 12})
+                    try:
+                        with poisoned_empty(float('nan')):
+                            fresh = _quiet(mk)
+                            _quiet(fit_pinned, m, later, 4)
+                            _quiet(fit_pinned, fresh, later, 4)
+                            same = mv_view(m) == mv_view(fresh)
+                    except Exception as e:  # noqa
+                        same = 'raised ' + type(e).__name__
+                    if after or same is not True:
+                        ctx.fail_input(f'{cls}.fit', {'model': label, 'input': iname},
+                                       {'queries_after_invalid_fit': after, 'later_valid_fit_equals_fresh': same},
+                                       'after invalid training data the model is unfitted (NotFittedError) and a later valid '
+                                       'fit equals a fresh fit', f'{cls}.fit:invalid-training-data-leaves-a-trace')
+                        bad = bad or {'model': label, 'input': iname, 'after': after, 'later_fit_equals_fresh': same}
+            if not was_fitted:
+                for iname, mkx in inf_inputs():
+                    m = _quiet(mk)
+                    try:
+                        _quiet(m.fit, mkx())
+                        out = f'returned fitted={int(m.fitted)}'
+                    except Exception as e:  # noqa
+                        out = f'{type(e).__name__} fitted={int(m.fitted)}'
+                    ctx.count(f'inf-observed:{cls_of(label)}:{out}')
             # control: valid data are accepted
             m = _quiet(mk)
             if was_fitted:
@@ -1416,6 +1594,9 @@ def _run_rest(ctx, lean, flags):
     _phase(ctx, 'check_invalid', check_invalid, ctx, lean)
     _phase(ctx, 'check_get_instance', check_get_instance, ctx, lean)
     _phase(ctx, 'check_clone_indirect', check_clone_indirect, ctx)
+    r = _phase(ctx, 'oracle_user_bounds', oracle_user_bounds, ctx, ctx.rng('user-bounds-run'), 1 * ctx.scale)
+    if r is not None:
+        ctx.ob('oracle:truncated-user-bounds', K_USER not in r[0], 'tie', {'findings': r[0], 'histories': r[1]})
     cfg = [('center', 5, 60, 3, 1), ('direct', 4, 60, 3, 2), ('direct', 5, 60, 3, 3), ('regular', 5, 60, 3, 4), ('regular', 6, 60, 3, 5)]
     rng = ctx.rng('uninit-run')
     cfg += [(rng.choice(['center', 'direct', 'regular']), rng.choice([4, 5, 6]), rng.randint(40, 70), 3, rng.randrange(1 << 20))
@@ -1430,10 +1611,11 @@ def search(ctx, deep):
     scale = 6 if deep else 1
     found, n1 = oracle_uni(ctx, rng, 2 * scale, forced=False)
     bad, n2 = oracle_multi(ctx, rng, 1 * scale)
+    ub, n4 = oracle_user_bounds(ctx, rng, 1 * scale)
     cfg = [(rng.choice(['center', 'direct', 'regular']), rng.choice([4, 5, 6, 7] if deep else [4, 5, 6]), rng.randint(40, 80), 3,
             rng.randrange(1 << 20)) for _ in range(3 * scale)]
     f, n3 = check_uninit(ctx, cfg)
-    ctx.support = {'refit_histories': n1, 'refit_findings': found, 'multivariate_pairs': n2, 'vines_poisoned': n3,
+    ctx.support = {'user_bound_histories': n4, 'user_bound_findings': ub, 'refit_histories': n1, 'refit_findings': found, 'multivariate_pairs': n2, 'vines_poisoned': n3,
                    'uninitialised_findings': f, 'deep': deep}
 
 
@@ -1447,6 +1629,9 @@ def replay(ctx, payload):
         import copulas.univariate as U
         cls = getattr(U, inp['class'])
         refit_oracle(ctx, cls, inp.get('ctor_raw', {}), inp['history'], inp['seed0'])
+    elif cls_key == K_USER or (cls_key == K_BND and 'args_raw' in inp):
+        oracle_user_bounds(ctx, ctx.rng('user-bounds-run'), 1)
+        oracle_user_bounds(ctx, ctx.rng('search'), 1)
     elif cls_key in (K_TAU, K_LIK, K_TAUSER):
         check_uninit(ctx, [(inp['vine_type'], inp['columns'], inp['rows'], 3, inp['data_seed'])])
     else:
